@@ -111,6 +111,7 @@ def strategy_(draw, tier):
     for c, _fs in spec["alloc"][:32]:
         pts += [c * csz, (c + 1) * csz]
     reqs = draw(strat.requests(size, csz, count=6, points=pts, whole_limit=4 << 20))
+    spec["via_minimal"] = draw(strat.minimal_handle())
     if forced:
         reqs.insert(0, [forced[0], min(forced[1], 4 << 20)])
     spec["requests"] = reqs
@@ -191,6 +192,9 @@ def check(spec) -> Outcome:
         if s.size != size:
             out.fail(f"mismatch|{tag}-size", f"size {s.size} != {size}")
         check_reads(out, s, lay, spec["requests"], tag)
+        from hv.core import also_minimal
+
+        also_minimal(out, spec, fh, HDS, lay, spec["requests"], tag)
         return out
 
     d = scratch_dir()
